@@ -127,6 +127,9 @@ func c16f4SentAmt(o *an.Obl, p *an.Prog) {
 				continue // starts at zero
 			}
 			form, operand := c16f4Accumulation(sa, w, obj)
+			// `for i := range xs { h := &xs[i]; ... h.F }` names the same
+			// element as `for _, h := range xs { ... h.F }`
+			operand = c16ElemOfKeyed(operand)
 			o.Site("SentAmt: result %d (%s) <- %s [%s %s]", i, role[i], an.Text(w.site.Node), form, operand)
 			switch {
 			case form == "":
@@ -586,13 +589,19 @@ func c16f4Repairs(r *an.Run) {
 		func(o *an.Obl) {
 			va := p.Func(pd + "verifyAttempt")
 			fields := map[string]bool{}
+			vaAliases := c16FinalHopAliases(va)
 			ast.Inspect(va.Body, func(n ast.Node) bool {
 				sel, ok := n.(*ast.SelectorExpr)
 				if !ok {
 					return true
 				}
-				c, ok := ast.Unparen(sel.X).(*ast.CallExpr)
-				if !ok || !strings.HasSuffix(an.CalleeID(va.Info(), c), "route.Route.FinalHop") {
+				// the final hop is the call itself or a local that holds
+				// nothing but its result
+				if id, isID := ast.Unparen(sel.X).(*ast.Ident); isID {
+					if _, isAlias := vaAliases[va.Info().Uses[id]]; !isAlias {
+						return true
+					}
+				} else if c, ok := ast.Unparen(sel.X).(*ast.CallExpr); !ok || !strings.HasSuffix(an.CalleeID(va.Info(), c), "route.Route.FinalHop") {
 					return true
 				}
 				if s := va.Info().Selections[sel]; s != nil && s.Kind() == types.FieldVal {
@@ -752,9 +761,66 @@ func c16f4Repairs(r *an.Run) {
 					continue
 				}
 				parents := c16f4Parents(f.Body)
+				aliases := c16FinalHopAliases(f)
+				aliasOf := map[*ast.CallExpr]types.Object{}
+				for obj, c := range aliases {
+					aliasOf[c] = obj
+				}
 				for _, s := range calls {
 					n++
 					call := s.Node.(*ast.CallExpr)
+					if obj, held := aliasOf[call]; held {
+						// `fh := x.FinalHop()`, fh written by nothing else: every
+						// use of fh is a use of the call's result and is held to
+						// the same rule, with `fh != nil` as the test
+						sel, _ := ast.Unparen(call.Fun).(*ast.SelectorExpr)
+						if sel == nil {
+							o.FailAt(f.ID+"#final-hop-call-shape", s.Where(), "cannot identify the route of %s", an.Text(call))
+							continue
+						}
+						base := f.Canon(sel.X)
+						o.Site("%s: %s holds %s.FinalHop()", f.ID, obj.Name(), base)
+						if len(c15ObjsNamed(f, obj.Name())) != 1 {
+							o.FailAt(f.ID+"#final-hop-escapes", s.Where(), "the result of %s is held in %s, a name %s declares more than once: dereferences of it are not followed by this rule, re-anchor it", an.Text(call), obj.Name(), f.ID)
+							continue
+						}
+						ast.Inspect(f.Body, func(nd ast.Node) bool {
+							id, ok := nd.(*ast.Ident)
+							if !ok || f.Info().Uses[id] != obj {
+								return true
+							}
+							var par ast.Node = id
+							for {
+								par = parents[par]
+								if _, isParen := par.(*ast.ParenExpr); !isParen {
+									break
+								}
+							}
+							v := f.Graph().Containing(id, false)
+							us := an.Site{Fn: f, V: v, Node: id}
+							switch x := par.(type) {
+							case *ast.BinaryExpr:
+								if _, _, isNilCmp := c16f4NilCmp(f.Info(), x); isNilCmp {
+									o.Site("%s: nil test of %s.FinalHop() held in %s", f.ID, base, obj.Name())
+									return true
+								}
+							case *ast.SelectorExpr:
+								if ast.Unparen(x.X) == ast.Expr(id) {
+									if sl := f.Info().Selections[x]; sl != nil && sl.Kind() == types.FieldVal && v != nil {
+										if stored.MatchString(base) {
+											nStored++
+											o.Site("%s: %s on a stored attempt (%s)", f.ID, an.Text(x), base)
+										}
+										guarded(o, f, us, an.IsNil(an.LocalNamed(obj.Name()), false, obj.Name()+" != nil"))
+										return true
+									}
+								}
+							}
+							o.FailAt(f.ID+"#final-hop-escapes", f.Where(id.Pos()), "the result of %s, held in %s, is neither tested against nil nor selected from (%s): dereferences of a further copy are not followed by this rule, re-anchor it", an.Text(call), obj.Name(), an.Text(par))
+							return true
+						})
+						continue
+					}
 					sel, _ := ast.Unparen(call.Fun).(*ast.SelectorExpr)
 					var par ast.Node = call
 					for {
@@ -798,7 +864,17 @@ func c16f4Repairs(r *an.Run) {
 			for _, s := range va.Returns() {
 				if rs, ok := s.Node.(*ast.ReturnStmt); ok && len(rs.Results) == 1 && an.IsNilIdent(va.Info(), rs.Results[0]) {
 					okRets = append(okRets, s)
-					guarded(o, va, s, an.IsNil(an.CallNamed("FinalHop", canonTerm(`^\$p1\.Route$`)), false, "attempt.Route.FinalHop() != nil"))
+					// the test is on the call or on a local holding its result
+					held := false
+					for _, name := range c16AliasesOfBase(va, `^\$p1\.Route$`) {
+						if ok, _ := va.Guarded(s, an.IsNil(an.LocalNamed(name), false, name+" != nil")); ok {
+							o.Site("%s below %s != nil (%s holds attempt.Route.FinalHop())", s.String(), name, name)
+							held = true
+						}
+					}
+					if !held {
+						guarded(o, va, s, an.IsNil(an.CallNamed("FinalHop", canonTerm(`^\$p1\.Route$`)), false, "attempt.Route.FinalHop() != nil"))
+					}
 				}
 			}
 			// a stored attempt without final hop ends the admission
@@ -806,7 +882,14 @@ func c16f4Repairs(r *an.Run) {
 			for _, hd := range c15RangeHeads(va, `^\$p0\.InFlightHTLCs\(\)$`) {
 				forbidden = append(forbidden, an.Site{Fn: va, V: hd, Node: hd.Node})
 			}
-			c15FactStops(o, va, an.IsNil(an.CallNamed("FinalHop", canonTerm(`^\$elem\(\$p0\.InFlightHTLCs\(\)\)\.Route$`)), true, "h.Route.FinalHop() == nil for an attempt in flight"), forbidden, "further admission")
+			storedFact := an.IsNil(an.CallNamed("FinalHop", canonTerm(`^\$elem\(\$p0\.InFlightHTLCs\(\)\)\.Route$`)), true, "h.Route.FinalHop() == nil for an attempt in flight")
+			storedHeld := c16AliasesOfBase(va, `^\$elem\(\$p0\.InFlightHTLCs\(\)\)\.Route$`)
+			for _, name := range storedHeld {
+				c15FactStops(o, va, an.IsNil(an.LocalNamed(name), true, name+" == nil for an attempt in flight ("+name+" holds h.Route.FinalHop())"), forbidden, "further admission")
+			}
+			if len(storedHeld) == 0 || len(va.EdgesOf(storedFact)) > 0 {
+				c15FactStops(o, va, storedFact, forbidden, "further admission")
+			}
 		})
 
 	r.Obl("both-stores-list-attempts-by-attempt-id", "MIRROR",
@@ -1346,4 +1429,116 @@ func c16f4Repairs(r *an.Run) {
 				}
 			}
 		})
+}
+
+// c16FinalHopAliases lists the locals of f that hold nothing but the result of
+// one route.Route.FinalHop() call: declared by `x := r.FinalHop()` (or `var x
+// = r.FinalHop()`), written by nothing else, address never taken.  A use of
+// such a local is a use of the call's result.
+func c16FinalHopAliases(f *an.Func) map[types.Object]*ast.CallExpr {
+	out := map[types.Object]*ast.CallExpr{}
+	if f == nil || f.Body == nil {
+		return out
+	}
+	info := f.Info()
+	consider := func(lhs *ast.Ident, rhs ast.Expr) {
+		c, ok := ast.Unparen(rhs).(*ast.CallExpr)
+		if !ok || !strings.HasSuffix(an.CalleeID(info, c), "route.Route.FinalHop") {
+			return
+		}
+		obj := info.Defs[lhs]
+		if obj == nil {
+			return
+		}
+		ws := c15WritesOfLocal(f, obj)
+		if len(ws) != 1 || !ws[0].def {
+			return
+		}
+		out[obj] = c
+	}
+	ast.Inspect(f.Body, func(n ast.Node) bool {
+		switch x := n.(type) {
+		case *ast.AssignStmt:
+			if x.Tok == token.DEFINE && len(x.Lhs) == 1 && len(x.Rhs) == 1 {
+				if id, ok := x.Lhs[0].(*ast.Ident); ok {
+					consider(id, x.Rhs[0])
+				}
+			}
+		case *ast.ValueSpec:
+			if len(x.Names) == 1 && len(x.Values) == 1 {
+				consider(x.Names[0], x.Values[0])
+			}
+		}
+		return true
+	})
+	return out
+}
+
+// c16AliasesOfBase: the names of the FinalHop aliases of f whose call is made
+// on a route with a canonical form matching baseRe (sorted).
+func c16AliasesOfBase(f *an.Func, baseRe string) []string {
+	var out []string
+	for obj, c := range c16FinalHopAliases(f) {
+		sel, _ := ast.Unparen(c.Fun).(*ast.SelectorExpr)
+		if sel == nil || !reMatch(baseRe, f.Canon(sel.X)) || len(c15ObjsNamed(f, obj.Name())) != 1 {
+			continue
+		}
+		out = append(out, obj.Name())
+	}
+	sort.Strings(out)
+	return out
+}
+
+// c16ElemOfKeyed rewrites, in a canonical form, the element of a ranged
+// collection that is reached through the loop's own key (`A[$key(A)]`, also
+// through a pointer to it, `&A[$key(A)]`, whose selections dereference
+// implicitly) to the element form `$elem(A)` the by-value loop yields.
+func c16ElemOfKeyed(c string) string {
+	const open = "[$key("
+	for from := 0; ; {
+		i := strings.Index(c[from:], open)
+		if i < 0 {
+			return c
+		}
+		i += from
+		// the collection named inside $key( ... )
+		depth, j := 1, i+len(open)
+		for ; j < len(c) && depth > 0; j++ {
+			switch c[j] {
+			case '(':
+				depth++
+			case ')':
+				depth--
+			}
+		}
+		if depth != 0 || j >= len(c) || c[j] != ']' {
+			from = i + len(open)
+			continue
+		}
+		coll := c[i+len(open) : j-1]
+		if coll == "" || !strings.HasSuffix(c[:i], coll) {
+			from = i + len(open)
+			continue
+		}
+		start := i - len(coll)
+		// the collection must be a whole operand, not the tail of a longer one
+		if start > 0 {
+			if p := c[start-1]; p == '.' || p == '$' || p == '_' || (p >= '0' && p <= '9') || (p >= 'a' && p <= 'z') || (p >= 'A' && p <= 'Z') {
+				from = i + len(open)
+				continue
+			}
+		}
+		if start > 0 && c[start-1] == '&' {
+			// &A[k].F selects from the element itself; a bare &A[k] (no
+			// selection following) stays a pointer and is left alone
+			if j+1 < len(c) && c[j+1] == '.' {
+				start--
+			} else {
+				from = i + len(open)
+				continue
+			}
+		}
+		c = c[:start] + "$elem(" + coll + ")" + c[j+1:]
+		from = start
+	}
 }
